@@ -6,6 +6,7 @@ import (
 	"fmt"
 	"go/token"
 	"go/types"
+	"os"
 	"sort"
 	"strconv"
 	"strings"
@@ -617,6 +618,16 @@ func (c *Ctx) flagMeansCodeOnLine(v ssa.Value, fn *ssa.Function, isLineOfComment
 	}
 	_, stores, _ := P.CellStores(cell)
 	sawTrue := false
+	lineKinds := map[string]bool{}
+	walked := false
+	defer func() {
+		if os.Getenv("GGV_DEBUG_INLINE") != "" {
+			fmt.Printf("DEBUG flagMeans fn=%s walked=%v sawTrue=%v kinds=%v\n", FuncName(fn), walked, sawTrue, lineKinds)
+		}
+		if walked && sawTrue && !(lineKinds["start"] && lineKinds["end"]) && c.once("trails-code "+FuncName(fn)) {
+			c.fail("SCOPE/INLINE-TRAILS-CODE", FuncName(fn), P.Pos(fn.Pos()), "a comment counts as trailing code only if a node ENDS on its line: `{ // @ignore CODE` after the opening brace of a multi-line literal or block (also `for {`, `switch {`, `default:`) is treated as stand-alone, and the diagnostic displayed on that line is not removed by it")
+		}
+	}()
 	for _, st := range stores {
 		cv, isC := constBool(st.Val)
 		if !isC {
@@ -642,9 +653,50 @@ func (c *Ctx) flagMeansCodeOnLine(v ssa.Value, fn *ssa.Function, isLineOfComment
 			continue
 		}
 		g := P.GuardsWithin(st, fn)
-		sameLine := hasLit(g, func(l Lit) bool {
-			return l.Kind == "eq" && l.Pos && (isLineOfComment(l.X) || isLineOfComment(l.Y)) && strings.Contains(P.Desc(l.X)+P.Desc(l.Y), ".End;")
-		})
+		// "code on the comment's line": a node that starts before the comment has a token on that line - it ends
+		// there (`x := 1 // ...`) or it starts there (`{ // ...`, `for { // ...`, `default: // ...`)
+		lineEq := func(l Lit, what string) bool {
+			if l.Kind != "eq" || !l.Pos {
+				return false
+			}
+			other := l.X
+			switch {
+			case isLineOfComment(l.X):
+				other = l.Y
+			case isLineOfComment(l.Y):
+			default:
+				return false
+			}
+			return strings.Contains(P.Desc(other), what)
+		}
+		sameLine := false
+		for _, l := range g {
+			if lineEq(l, ".End;") {
+				sameLine = true
+				lineKinds["end"] = true
+			}
+			if lineEq(l, ".Pos;") {
+				sameLine = true
+				lineKinds["start"] = true
+			}
+			if l.Kind == "or" && l.Pos {
+				all := len(l.Subs) > 0
+				for _, sl := range l.Subs {
+					switch {
+					case lineEq(sl, ".End;"):
+						lineKinds["end"] = true
+					case lineEq(sl, ".Pos;"):
+						lineKinds["start"] = true
+					default:
+						all = false
+					}
+				}
+				if all {
+					sameLine = true
+				}
+			}
+		}
+		walked = walked || st.Parent() != fn
 		before := hasLit(g, func(l Lit) bool {
 			// !(n.Pos() >= commentPos)  ==  n.Pos() < commentPos
 			return l.Kind == "lt" && l.Pos && strings.Contains(P.Desc(l.X), ".Pos;") && strings.Contains(P.Desc(l.Y), "(*go/ast.Comment).Pos")
